@@ -170,6 +170,24 @@ theorem C26_cex_block : ¬ C26_full := by
     simp only [check, Bool.and_eq_true, decide_eq_true_eq, Option.isNone_iff_eq_none] at hb
     exact (h ⟨1, 1⟩ (by decide) (by decide) slowSchedule s hr).2 ⟨2, 1, [], hb.1.1, hb.1.2⟩
 
+/-- the same situation at ANY capacities `c`, `q`: `c + 1` transaction groups go to the silent replica
+    (`c` queued, one in `stream.Send`), the next one is held by the sender, `q` more fill `Sender.channel` -/
+def fanRound : List Ev := [.commit, .senderTake, .senderPick 1, .senderSend, .senderDone]
+
+def fillSchedule (c q : Nat) : List Ev :=
+  [.open 1] ++ fanRound ++ [.streamRecv 1] ++ (List.replicate c fanRound).flatten ++
+    [.commit, .senderTake, .senderPick 1] ++ List.replicate q .commit
+
+/-- capacities 8 / 8: after 8 + 1 + 1 + 8 = 18 accepted `Sender.Send` calls the sender goroutine is stuck
+    holding transaction group 9 and the 19th `Sender.Send` is not enabled.  (With the capacities of the source the
+    same schedule gives 500 + 1 + 1 + 500 = 1002: computed by the driver from this very `step` function and
+    measured on the real `Sender` by the harness, op `fanq 1003` ⇒ `sent=1002 blocked=1`; the kernel evaluation of
+    the 3000-step run takes minutes and is therefore not part of the build.) -/
+theorem C26_cex_block_cap8 :
+    check (run ⟨8, 8⟩ init (fillSchedule 8 8)) (fun s => decide (s.sender = .holding 9 1 []) &&
+      decide (s.n = 18) && (step ⟨8, 8⟩ s .senderSend).isNone && (step ⟨8, 8⟩ s .commit).isNone) = true := by
+  decide +kernel
+
 /-- the blocked configuration: the sender holds `rid`'s channel, the channel is open and full, and the
     stream goroutine is inside `stream.Send` -/
 def Blocked (c : Cfg) (s : St) (tg rid : Nat) : Prop :=
